@@ -202,7 +202,9 @@ fn ent(len: u64) -> HEntity {
     static TICK: std::sync::atomic::AtomicU64 = std::sync::atomic::AtomicU64::new(0);
     let t = TICK.fetch_add(1, std::sync::atomic::Ordering::Relaxed);
     e.headers = match (t.wrapping_mul(0x9E37_79B9_7F4A_7C15) >> 40) % 8 {
-        0 | 1 | 2 => vec![],
+        0 | 1 => vec![],
+        // (the shortest header lines there are: a one-letter name, an empty value)
+        2 => vec![("a".into(), vec![])],
         3 => vec![("content-type".into(), b"text/plain".to_vec())],
         4 => vec![("x-ent-a".into(), b"1".to_vec()), ("x-ent-a".into(), b"22".to_vec()), ("x-ent-a".into(), b"".to_vec())],
         5 => vec![("set-cookie".into(), b"a=1".to_vec()), ("content-type".into(), b"text/plain".to_vec()), ("set-cookie".into(), b"b=2".to_vec())],
